@@ -424,6 +424,16 @@ def process (st : State) (line : String) : State × String :=
         ({ st with sim := some (five, { p with st := { p.st with imem := im, mem := p.st.mem.reset } }) }, "ok")
       | none => (st, "bad-op")
     | none => (st, "bad-op")
+  /- `instruction_memory.write_instruction(4k, instr)`: one instruction stored or replaced (k at most the program length);
+     nothing else changes — in particular an instruction cache is NOT invalidated (as in the code) -/
+  | ["sim.wi", k, tok] =>
+    match st.sim, k.toNat?, parseInstr tok with
+    | some (five, p), some n, some i =>
+      if n ≤ p.st.imem.prog.length then
+        let prog' := if n < p.st.imem.prog.length then p.st.imem.prog.set n i else p.st.imem.prog ++ [i]
+        ({ st with sim := some (five, { p with st := { p.st with imem := { p.st.imem with prog := prog' } } }) }, "ok")
+      else (st, "bad-op")
+    | _, _, _ => (st, "bad-op")
   | ["sim.reg", r, v] =>
     match st.sim, r.toNat?, v.toNat? with
     | some (five, p), some rr, some vv =>
